@@ -121,6 +121,22 @@ func Programs() []Input {
 	// a program that starts with %! and is fed in pieces (CheckStart applies to the first piece only)
 	cs := tokenised("percent-bang-header", "%!PS-Adobe-3.0\n", "/a", "1", "def", "{", "a", "2", "add", "}", "exec", "[", "a", "a", "]", "length")
 	out = append(out, cs)
+	// a CMap fed token by token: a piece boundary may fall inside any block
+	out = append(out, tokenised("cmap-token-by-token",
+		"/CIDInit", "/ProcSet", "findresource", "begin", "12", "dict", "begin", "begincmap", "/CMapName", "/T", "def", "/CMapType", "1", "def",
+		"1", "begincodespacerange", "<00>", "<ff>", "endcodespacerange",
+		"2", "beginbfchar", "<41>", "<0041>", "<42>", "<0042>", "endbfchar",
+		"1", "begincidrange", "<00>", "<40>", "0", "endcidrange",
+		"2", "begincidchar", "<50>", "7", "<51>", "8", "endcidchar",
+		"1", "beginbfrange", "<60>", "<6f>", "<0060>", "endbfrange",
+		"1", "beginnotdefrange", "<f0>", "<ff>", "1", "endnotdefrange",
+		"1", "beginnotdefchar", "<e0>", "2", "endnotdefchar",
+		"endcmap", "CMapName", "currentdict", "/CMap", "defineresource", "pop", "end", "end"))
+	// programs that end in the middle of something: whatever they give (an
+	// error, as a rule), they give it however the bytes arrive
+	for i, bad := range []string{"1 2 add >", "%!PS\n/before 1 def\ncurrentfile eexec ab", "%!PS\ncurrentfile eexec\n", "/a (unterminated string", "/b <48 6", "{ 1 2 add", "/x 1 def <<", "1 2 add ~>", "3 <~87cUR", "4 <", "5 /", "6 %"} {
+		out = append(out, Input{Name: fmt.Sprintf("ends-abruptly-%d", i), Kind: "ps", Data: []byte(bad)})
+	}
 	// a long program that crosses several 512-byte refills
 	var long []string
 	for i := 0; i < 260; i++ {
